@@ -5,6 +5,9 @@
    every allocation (base address and contents of any length, 0 included). *)
 Require Import List Arith Bool.
 From Dasp Require Import Base.Res Base.ListX Frame.Slice Frame.SliceSpec Frame.SliceProofs Frame.SliceExamples.
+From Dasp Require Import Frame.SliceFallible Frame.SliceFallibleProofs.
+(* checked with this file (vm_compute examples over the real sample formats; nothing below refers to them) *)
+From Dasp Require Frame.SliceRunWExamples.
 Import ListNotations.
 
 (* Total: viewing L interleaved samples as N-channel frames never panics and never reads
@@ -159,3 +162,73 @@ Proof.
         (conj (add_with_amp_spec add_amp mul_amp a b amp) (zip_map_mismatch _ a b)))))))).
 Qed.
 Print Assumptions c10_derived_ops.
+
+(* ------------------------------------------------------------------------- *)
+(* The same operations when the frame operation can PANIC (Frame/SliceFallible.v): Sample::add_amp of an integer
+   format is `+` with an overflow check in a checked build, the I24/I48 operators `expect`.  This is the form the
+   correspondence runs over all fourteen sample formats with the C03 model of add_amp / mul_amp / scale_amp /
+   offset_amp as the frame operation (Frame/SliceRunW.v), in both build modes. *)
+
+(* equal lengths: no unchecked access leaves either slice, and the outcome is the front-to-back walk that stores
+   each result and stops at the first panic *)
+Theorem c10_fallible_zip_map : forall (FA FB : Type) (f : FA -> FB -> res FA) (a : list FA) (b : list FB),
+  length a = length b -> zip_map_in_place_r f a b = zip_r_spec f a b.
+Proof. exact @zip_map_r_spec. Qed.
+Print Assumptions c10_fallible_zip_map.
+
+Theorem c10_fallible_mismatch_panics_unchanged : forall (FA FB : Type) (f : FA -> FB -> res FA) (a : list FA) (b : list FB),
+  length a <> length b -> zip_map_in_place_r f a b = (a, Panic PAssert).
+Proof. exact @zip_map_r_mismatch. Qed.
+Print Assumptions c10_fallible_mismatch_panics_unchanged.
+
+(* a frame operation that returns on every pair of frames it meets: exactly the operation of Frame/Slice.v, so
+   c10_zip_map / c10_derived_ops apply (destination = element-wise image) *)
+Theorem c10_fallible_refines_total : forall (FA FB : Type) (f : FA -> FB -> res FA) (g : FA -> FB -> FA) (a : list FA) (b : list FB),
+  (forall i x y, nth_error a i = Some x -> nth_error b i = Some y -> f x y = Ok (g x y)) ->
+  zip_map_in_place_r f a b = zip_map_in_place g a b.
+Proof. exact @zip_map_r_total. Qed.
+Print Assumptions c10_fallible_refines_total.
+
+(* the first panicking call: the frames before it hold the results [vs], its own frame and every later one are
+   untouched, the panic is the call's own *)
+Theorem c10_fallible_first_panic : forall (FA FB : Type) (f : FA -> FB -> res FA) (a1 : list FA) (b1 : list FB) (vs : list FA)
+    (x : FA) (y : FB) (a2 : list FA) (b2 : list FB) (k : panic_kind),
+  length a1 = length b1 -> length a2 = length b2 -> map2 f a1 b1 = map Ok vs -> f x y = Panic k ->
+  zip_map_in_place_r f (a1 ++ x :: a2) (b1 ++ y :: b2) = (vs ++ x :: a2, Panic k).
+Proof. exact @zip_map_r_first_panic. Qed.
+Print Assumptions c10_fallible_first_panic.
+
+(* the unsafe loop adds no undefined behaviour, whatever the lengths and whatever panics *)
+Theorem c10_fallible_no_UB : forall (FA FB : Type) (f : FA -> FB -> res FA) (a : list FA) (b : list FB),
+  (forall x y, f x y <> UB) -> snd (zip_map_in_place_r f a b) <> UB.
+Proof. exact @zip_map_r_no_UB. Qed.
+Print Assumptions c10_fallible_no_UB.
+
+Theorem c10_fallible_map_in_place : forall (FA : Type) (m : FA -> res FA),
+  (forall (g : FA -> FA) (a : list FA), (forall x, In x a -> m x = Ok (g x)) -> map_in_place_r m a = (map g a, Ok tt)) /\
+  (forall (a1 vs : list FA) (x : FA) (a2 : list FA) (k : panic_kind), map m a1 = map Ok vs -> m x = Panic k ->
+     map_in_place_r m (a1 ++ x :: a2) = (vs ++ x :: a2, Panic k)).
+Proof.
+  intros FA m. split.
+  - intros g a H. rewrite (map_in_place_r_total m g a H). now rewrite map_in_place_spec.
+  - exact (map_in_place_r_first_panic m).
+Qed.
+Print Assumptions c10_fallible_map_in_place.
+
+(* the derived operations are the element-wise frame operation `af.add_amp(bf)` / `af.add_amp(bf.mul_amp(amp))`
+   (the scaled frame is computed first; a panic of either method is the call's panic) for EVERY gain: no gain
+   value - 1.0 on every channel included - turns the second into the first unless mul_amp by it is the identity
+   of the frame format at hand (it is not for i32/u32/i64/u64: Frame/SliceRunWExamples.v) *)
+Theorem c10_fallible_derived_ops : forall (FA FB AMP : Type) (add_amp : FA -> FB -> res FA) (mul_amp : FB -> AMP -> res FB)
+    (amp : AMP) (a : list FA) (b : list FB),
+  (length a = length b -> add_in_place_r add_amp a b = zip_r_spec add_amp a b) /\
+  (length a <> length b -> add_in_place_r add_amp a b = (a, Panic PAssert)) /\
+  (length a = length b -> add_in_place_with_amp_per_channel_r add_amp mul_amp a b amp =
+                          zip_r_spec (fun x y => let* s := mul_amp y amp in add_amp x s) a b) /\
+  (length a <> length b -> add_in_place_with_amp_per_channel_r add_amp mul_amp a b amp = (a, Panic PAssert)).
+Proof.
+  intros FA FB AMP add_amp mul_amp amp a b.
+  exact (conj (add_in_place_r_spec add_amp a b) (conj (zip_map_r_mismatch _ a b)
+        (conj (add_with_amp_r_spec add_amp mul_amp a b amp) (zip_map_r_mismatch _ a b)))).
+Qed.
+Print Assumptions c10_fallible_derived_ops.
